@@ -535,6 +535,8 @@ func (h *WHist) OracleWireIntegrity(e *Env, orderClauses bool) []wseg {
 	if !orderClauses {
 		return segs
 	}
+	// (a buffering transport cuts the stream wherever its buffer fills: there, transport writes need not end on
+	// payload boundaries; the order clauses below still apply)
 	// every transport write must end on a payload boundary ("at every moment a concatenation of whole payloads")
 	bounds := make([]bool, len(conn.Wire)+1)
 	bounds[0] = true
@@ -542,6 +544,9 @@ func (h *WHist) OracleWireIntegrity(e *Env, orderClauses bool) []wseg {
 		bounds[s.Off+len(h.Calls[s.Call].Want)] = true
 	}
 	for _, ev := range conn.Log {
+		if h.Rig.Buffered {
+			break
+		}
 		if isWriteEv(ev.Kind) && (ev.Off+ev.N >= len(bounds) || !bounds[ev.Off+ev.N]) {
 			e.Violate("whole", "split-across-writes", "transport write ending at wire offset %d cuts a payload", ev.Off+ev.N)
 		}
@@ -593,7 +598,7 @@ func (h *WHist) OracleNoStranded(e *Env, segs []wseg) {
 			e.Violate("stranded", "accepted-never-sent", "at quiescence the payload of %s was never handed to the transport", c)
 		}
 	}
-	if h.Rig.Conn.Unflushed > 0 {
+	if h.Rig.Conn.Unflushed > 0 && !h.Rig.Buffered {
 		e.Violate("stranded", "unflushed", "at quiescence %d bytes handed to the transport were never flushed", h.Rig.Conn.Unflushed)
 	}
 }
@@ -637,7 +642,7 @@ func (h *WHist) OracleGracefulClose(e *Env, segs []wseg) {
 			lastSeg = on[c.Idx]
 		}
 	}
-	if lastSeg > 0 {
+	if lastSeg > 0 && !h.Rig.Buffered { // behind the buffering wrapper, bytes on the connection are flushed bytes by definition
 		flushed := false
 		for _, ev := range conn.Log {
 			if ev.Kind == simnet.EvFlush && ev.Seq > lastSeg && ev.Seq < closeEv.Seq {
